@@ -83,6 +83,10 @@ func (p *Proof) IsValid(public Public) bool {
 	if p == nil {
 		return false
 	}
+	if p.Commitment == nil || p.Bx == nil || p.E == nil || p.S == nil || p.F == nil || p.T == nil ||
+		p.Z1 == nil || p.Z2 == nil || p.Z3 == nil || p.Z4 == nil {
+		return false
+	}
 	if !public.Verifier.ValidateCiphertexts(p.A) {
 		return false
 	}
